@@ -529,6 +529,33 @@ def c08_multi():
     else:
         fail("C08.inconsistent", {"lines": text, "outputs": out}, "line count changed", "replace_matching_item")
 
+    # one $9$ / $1$ secret in different quoting and punctuation contexts (catch-all forms): one replacement
+    jsec = js.juniper_nonrandom_encrypt("sharedKey-42", "C")
+    msec = md5c("sharedKey-42", "abcd")
+    for sec in (jsec, msec):
+        ctx = ['pre-shared-key ascii-text "%s";', 'psk="%s" mode=main', "psk=%s", '{"pre-shared-key":"%s","mode":"main"}',
+               "tunnel-credential %s ;", 'x "%s"', "[%s]", "{%s},"]
+        note(("multi", "contexts", sec[:3]))
+        out = run_io("\n".join(c % sec for c in ctx) + "\n", anon_pwd=True, anon_ip=False, salt="s8").splitlines()
+        got = set()
+        for c, o in zip(ctx, out):
+            pre, post = c.split("%s")
+            if SCRUB in o:
+                continue
+            if not (o.startswith(pre) and o.endswith(post) and len(o) >= len(pre) + len(post)):
+                fail("C08.inconsistent", {"line": c % sec, "output": o}, "text around the secret changed / swallowed", "regexes")
+                continue
+            mid = o[len(pre):len(o) - len(post)]
+            if sec is jsec:
+                try:
+                    mid = "J9:" + js.juniper_decrypt(mid)
+                except ValueError:
+                    mid = "J9-bad:" + mid
+            got.add(mid)
+        if len(got) > 1:
+            fail("C08.inconsistent", {"secret": sec, "contexts": ctx, "replacements": sorted(got)},
+                 "one secret received different replacements depending on quoting / punctuation", "regexes")
+
     note(("multi", "streams"))
     fa = FileAnonymizer(anon_pwd=True, anon_ip=False, salt="s8")
     outs = []
@@ -1078,7 +1105,7 @@ CHECKS = {"C07": [c07, c07_multi, c07_corpus], "C08": [c08, c08_multi, lambda: c
           "C16": [c16], "C19": [c19]}
 BOUNDS = {
     "C07": "25 line forms x 7 secret format classes x 2 secret variants (same equality pattern), output and INFO+ log compared; 8 standalone hash tokens; 5 one-line templates carrying two secrets of the same form",
-    "C08": "60/1500 random runs: 2-5 secrets of mixed classes over 3-8 lines, 6 enclosing-text variants, $9$ re-encodings under random salts; one run over two streams and over a two-file directory with shared secrets in different positions; 5 lines with two secrets of one form on the same line",
+    "C08": "60/1500 random runs: 2-5 secrets of mixed classes over 3-8 lines, 6 enclosing-text variants, $9$ re-encodings under random salts; one run over two streams and over a two-file directory with shared secrets in different positions; 5 lines with two secrets of one form on the same line; a $9$ and a $1$ secret in 8 quoting / punctuation contexts",
     "C09": "4 netconan salts x 5 line forms x 7 classes x 2/8 secrets x 8 enclosing-text variants; type 7 decoded, $1$ salt length, $6$ shape, $9$ decrypted",
     "C10": "5 word lists (prefixes/substrings, mixed case, a regex metacharacter) x 3 reserved sets x 2/3 hash seeds (subprocesses) x 11 lines; 8 lines mixing words with secrets and scrubbed forms, secrets on and off; 5 words with non-ASCII letters in their one-to-one letter cases",
     "C12": "15 feature subsets x 5 texts (blank lines, tabs, CRLF, no final newline, empty); per-line independence for 17 lines; 11 tokens with backslash / template characters x 5 secret line forms carried over verbatim",
